@@ -30,6 +30,7 @@ def run(sc, keep_sim=False, hold=None):
     sim.latency = lambda c, src, dst: lat[(c * 7 + dst * 3 + src) % len(lat)]
     sim.faults = sc.get('faults', [])
     sim.tx_time = sc.get('tx_time', 0)
+    sim.eager_wake = bool(sc.get('eager_wake'))
     stacks = []
     res = Result()
     res.sc = sc
@@ -48,6 +49,9 @@ def run(sc, keep_sim=False, hold=None):
                     st.ca_subscribe(ci, st.cb(cid, 'sub'))
                 for cid in cd.get('req', []):
                     st.ca_subscribe_request(ci, st.cb(cid, 'req'))
+        for te in sc.get('tx_errors', []):
+            # {'s': stack, 'nth': k}: the k-th frame that stack hands to the driver is refused with can.CanError
+            stacks[te['s']].tx_error_at = set(getattr(stacks[te['s']], 'tx_error_at', set())) | {te['nth']}
         if hold:
             install_hold(sim, stacks, hold)
         for hk in sc.get('on_tx', []):
@@ -59,10 +63,16 @@ def run(sc, keep_sim=False, hold=None):
                 def hook(can_id, data):
                     if ((can_id >> 8) & 0xFFFF) != hk['pgn16']:
                         return
+                    if 'data0' in hk and (not data or data[0] != hk['data0']):
+                        return
                     state['n'] += 1
                     if state['n'] == hk.get('nth', 1):
-                        for op in hk['ops']:
+                        for op in hk.get('ops', []):
                             _mk_call(sim, stacks, dict(op, s=hk['s'], t=sim.now), res)()
+                        for fr in hk.get('deliver', []):
+                            # a frame of the peer that reaches this node while its own frame is still being handed to the
+                            # bus (the reader thread runs inside the send call)
+                            stacks[hk['s']].deliver((fr['id'], True, list(fr['data']), fr.get('fd', False)), 'listener')
                 return hook
             st = stacks[hk['s']]
             st.tx_hooks = getattr(st, 'tx_hooks', []) + [mk(hk)]
@@ -103,9 +113,9 @@ def _script(spec, st):
 def _do(st, a):
     op = a['op']
     if op == 'remove_timer':
-        st.remove_timer(st.cbs.get(a['cid']) or st.cb(a['cid'], 'timer'))
+        st.remove_timer(st.cbs.get(a['cid']) or st.cb(a['cid'], 'timer'), via_ca=a.get('ca'))
     elif op == 'add_timer':
-        st.add_timer(a['delta'] / 1e6, _timer_cb(st, a), None)
+        st.add_timer(a['delta'] / 1e6, _timer_cb(st, a), None, via_ca=a.get('ca'))
     elif op == 'busy':
         # the callback blocks the job thread for d microseconds (at its k-th invocation only when 'at' is given)
         n = st.busy_count = getattr(st, 'busy_count', {})
